@@ -34,6 +34,7 @@ structure St where
   keyFinals : List (String × List String) := []   -- per key: the values some linearization of the calls on that key ends with
   d17Keys : List String := []                -- keys sharing a bucket with a key that has two overlapping mutators in the last schedule
   bits : Nat := 24
+  relocWindowMutator : Bool := false         -- D32 recogniser of the last schedule
 deriving Repr
 
 def digestOf (khex : String) : Bytes := (mhDecode ((fromHex khex).getD [])).getD []
@@ -576,7 +577,19 @@ def step (st : St) (l : Line) : St × List Msg :=
       (if gcOverlap then [Msg.flag "gc-overlaps-call"] else []) ++
       (if evs.any (·.endsWith "@store.flushtick.waiting") then [Msg.flag "writer-waited"] else []) ++
       (if evs.any (·.endsWith "@store.flushtick.released") then [Msg.flag "writer-released"] else [])
-    ({ st with lastHist := hist, finalSpecs := finals, concFinal := concFinal, lastGcOverlap := gcOverlap, keyFinals := keyFinals, d17Keys := d17Keys },
+    -- D32 recogniser: a mutator call returned between the collector's copy of a record ([primary.gc.reloc.put]) and its re-pointing
+    -- ([primary.gc.reloc.index_updated])
+    let relocWindowMutator : Bool := (evs.foldl (fun (acc : Bool × Bool) ev =>
+        let (inReloc, hit) := acc
+        if ev.endsWith "@primary.gc.reloc.put" then (true, hit)
+        else if ev.endsWith "@primary.gc.reloc.index_updated" then (false, hit)
+        else match ev.splitOn ":" with
+          | [t, "ret", i, res] =>
+            let op := (((st.programs.find? (·.1 = t)).map (·.2)).getD []).getD (i.toNat?.getD 0) ""
+            (inReloc, hit || (inReloc && isMutator op && (res == "ok" || res == "true")))
+          | _ => (inReloc, hit)) (false, false)).2
+    ({ st with lastHist := hist, finalSpecs := finals, concFinal := concFinal, lastGcOverlap := gcOverlap, keyFinals := keyFinals, d17Keys := d17Keys,
+               relocWindowMutator := relocWindowMutator },
       pErr ++ pLin ++ pWait ++ pStuck ++ flags)
   | "sfinal" =>
     let ra := resArgs l.res
@@ -609,7 +622,8 @@ def step (st : St) (l : Line) : St × List Msg :=
       let orphans := live.filter fun x => !cur.contains x
       (orphans.filter (fun x => !fl.contains x)).map (fun x => Msg.prop s!"location {x} is no longer current, still marked in use, and not on the freelist (lost freelist entry){known}") ++
       (fl.filter (fun x => cur.contains x)).map (fun x => Msg.prop s!"location {x} is still current and on the freelist{known}") ++
-      (if fl.eraseDups.length = fl.length then [] else [Msg.prop s!"a location is on the freelist twice: {fl.filter (fun x => (fl.filter (· = x)).length > 1) |>.eraseDups}{known}"]) ++
+      (if fl.eraseDups.length = fl.length then [] else [Msg.prop (s!"a location is on the freelist twice: {fl.filter (fun x => (fl.filter (· = x)).length > 1) |>.eraseDups}{known}" ++
+          (if known = "" ∧ st.relocWindowMutator then " [known:D32 relocation-refused-frees-old-again]" else ""))]) ++
       [Msg.flag "handover-accounting"] ++ (if fl.isEmpty then [] else [Msg.flag "freelist-nonempty"])
     -- the section model's final contents are what the real store holds after quiescence
     let concCmp : List Msg := match st.concFinal with
